@@ -136,6 +136,14 @@ class C35(Mode):
                                 handles[n] = lst[0]
                                 lst[0].bal
                                 rec.held.add(n)     # a serializable session "holds" everything it read
+                            elif lst and not any(f[1] == tname for f in simdb.ctx.fired[fired0:]):
+                                # the SELECT went out, no transaction (SQLite: BEGIN IMMEDIATE + the provider's
+                                # lock) is open on this connection: nothing stops another session changing the row
+                                self.viol('serializable-read-outside-transaction',
+                                          'kind=%s|after_commit=%s' % (rec.kind, rec.had_commit),
+                                          'session %d (%s) read %r from the database while its connection had no open '
+                                          'transaction: what it read is not protected until the session ends'
+                                          % (rec.sid, rec.kind, n))
                     elif op == 'incr':
                         if n in rec.held:
                             o = handles[n]
